@@ -61,6 +61,20 @@ def main():
         sh(f"git -C {wt} checkout -- .")
         r = sh(f"PYTHONPATH={wt}/src /venv/bin/python {src}/demo.py", cwd=wt)
         meta["demo_without_patch_exit"] = r.returncode
+        if os.environ.get("SEED_EVAL_SIDE"):
+            # several evaluations at once: the checks are run against the scratch worktree itself (ODFDO_REPO / ODFDO_SRC),
+            # their evidence and replay files going to a scratch directory - /repo is not touched
+            side = True
+            sh(f"git -C {wt} apply {src}/patch.diff")
+            meta["checks"] = {}
+            senv = dict(os.environ, ODFDO_REPO=str(wt), ODFDO_SRC=f"{wt}/src", VERIF_EVIDENCE_DIR=f"/tmp/evalside_ev/{prop}_{name}",
+                        VERIF_REPLAY_DIR=f"/tmp/evalside_rep/{prop}_{name}")
+            for c in checks:
+                t0 = time.time()
+                r = sh(f"./check {c} --tier quick", cwd=ROOT, env=senv)
+                sigs = [l.strip() for l in r.stdout.splitlines() if l.strip().startswith("signature:")][:5]
+                meta["checks"][c] = {"exit": r.returncode, "wall_s": round(time.time() - t0, 1), "signatures": sigs}
+                meta["ran"].append(f"./check {c} --tier quick (patch applied to a scratch worktree of /repo's HEAD, ODFDO_REPO) -> exit {r.returncode}")
     except StopIteration:
         pass
     finally:
@@ -68,6 +82,15 @@ def main():
         shutil.rmtree(wt, ignore_errors=True)
     ok = meta["demo_with_patch_exit"] == 1 and meta["demo_without_patch_exit"] == 0 and " passed" in meta["test_suite_with_patch"] and "failed" not in meta["test_suite_with_patch"]
     meta["confirmed"] = ok
+    if os.environ.get("SEED_EVAL_SIDE") and "checks" in meta:
+        out.mkdir(parents=True, exist_ok=True)
+        shutil.copy(src / "patch.diff", out / "patch.diff")
+        shutil.copy(src / "demo.py", out / "demo.py")
+        notes = (src / "notes.txt").read_text() if (src / "notes.txt").exists() else ""
+        meta["needs_to_manifest"] = notes[:3000]
+        (out / "meta.json").write_text(json.dumps(meta, indent=1) + "\n")
+        print(json.dumps({k: meta[k] for k in ("confirmed", "test_suite_with_patch", "demo_with_patch_exit", "demo_without_patch_exit", "checks")}, indent=1))
+        return 0
     # our checks against /repo with the patch applied
     st = sh("git -C /repo status --porcelain").stdout.strip()
     assert not st, "/repo not clean: " + st
